@@ -34,7 +34,7 @@ fn extras_from(picks: &[(u8, u8, u8, u8)], n: usize, nodes: &[Node]) -> Vec<Vec<
         let id = format!("x{k}");
         // a referrer may also point at the previous extra, so that extras form chains of their own
         let prev = if k > 0 && m % 2 == 0 { format!("x{}", k - 1) } else { id_of(ta) };
-        let v: Vec<(String, String)> = match kind % 12 {
+        let v: Vec<(String, String)> = match kind % 13 {
             // offsets / size deltas computed from another element: the element is not laid out until they resolve
             5 => vec![("_el".into(), "rect".into()), ("id".into(), id), ("x".into(), format!("{}", m % 11)), ("y".into(), format!("{}", m % 7)), ("width".into(), "5".into()), ("height".into(), "4".into()),
                       ((if m % 3 == 0 { "dx" } else if m % 3 == 1 { "dy" } else { "dxy" }).into(), format!("{{{{#{}~w}}}}", id_of(tb)))],
@@ -51,7 +51,10 @@ fn extras_from(picks: &[(u8, u8, u8, u8)], n: usize, nodes: &[Node]) -> Vec<Vec<
             // native geometry, moved by a transform whose amount is taken from another element
             11 => vec![("_el".into(), "rect".into()), ("id".into(), id), ("x".into(), format!("{}", m % 11)), ("y".into(), format!("{}", m % 7)), ("width".into(), "5".into()), ("height".into(), "4".into()),
                        ("transform".into(), format!("translate({{{{#{}~w}}}} {})", id_of(tb), m % 4))],
-            0 => vec![("_el".into(), "rect".into()), ("id".into(), id), ("surround".into(), format!("#{} #{}", id_of(ta), id_of(tb))), ("margin".into(), format!("{}", m % 5))],
+            // a group whose content waits for another element: registered, but without a box of its own until then
+            12 => vec![("_el".into(), "g".into()), ("id".into(), id), ("_kid".into(), format!("#{}|{} {}", id_of(tb), ["h", "v", "H", "V"][(m / 2) as usize % 4], 1 + m % 4))],
+            // (with an even m the second target is the previous extra - possibly such a group, or something else still pending)
+            0 => vec![("_el".into(), "rect".into()), ("id".into(), id), ("surround".into(), format!("#{} #{}", id_of(tb), prev)), ("margin".into(), format!("{}", m % 5))],
             1 => vec![("_el".into(), "line".into()), ("id".into(), id), ("start".into(), format!("#{}", id_of(ta))), ("end".into(), format!("#{}", id_of(tb)))],
             2 => vec![("_el".into(), "polyline".into()), ("id".into(), id), ("start".into(), format!("#{}@r", id_of(ta))), ("end".into(), format!("#{}@l", id_of(tb)))],
             3 => vec![("_el".into(), "rect".into()), ("id".into(), id), ("xy".into(), format!("#{}|v {}", id_of(ta), m % 7)), ("width".into(), format!("{}", 1 + m % 9)), ("height".into(), format!("{}", 1 + m % 4))],
@@ -65,7 +68,11 @@ fn extras_from(picks: &[(u8, u8, u8, u8)], n: usize, nodes: &[Node]) -> Vec<Vec<
 fn extra_xml(v: &[(String, String)]) -> XEl {
     let mut e = XEl::new(&v[0].1);
     for (k, val) in &v[1..] {
-        e.set(k, val.clone());
+        if k == "_kid" {
+            e.kids.push(crate::gen::X::El(XEl::new("rect").a("xy", val.clone()).a("wh", "5 3")));
+        } else {
+            e.set(k, val.clone());
+        }
     }
     e
 }
